@@ -15,6 +15,8 @@ use self::chunker::Chunker;
 use self::encoding::{Encoder, Encoding};
 
 pub(crate) fn input_matches(mut input: Ref) -> io::Result<bool> {
+	#[cfg(xt_verif)]
+	crate::verif::emit("trial", 4, u64::from(matches!(input, Ref::Slice(_))), 0);
 	// YAML can be surprisingly liberal in what it accepts. In particular, the
 	// contents of many non-YAML text documents can actually be parsed as YAML
 	// scalars, such as TOML documents that do not start with a table. To
@@ -102,9 +104,13 @@ impl<W: Write> crate::Output for Output<W> {
 		D: de::Deserializer<'de, Error = E>,
 		E: de::Error + Send + Sync + 'static,
 	{
+		#[cfg(xt_verif)]
+		crate::verif::emit("doc_begin", 4, 0, 0);
 		writeln!(&mut self.0, "---")?;
 		let mut ser = serde_yaml::Serializer::new(&mut self.0);
 		transcode::transcode(&mut ser, de)?;
+		#[cfg(xt_verif)]
+		crate::verif::emit("doc_end", 4, 0, 0);
 		Ok(())
 	}
 
@@ -112,12 +118,68 @@ impl<W: Write> crate::Output for Output<W> {
 	where
 		S: ser::Serialize,
 	{
+		#[cfg(xt_verif)]
+		crate::verif::emit("doc_begin", 4, 1, 0);
 		writeln!(&mut self.0, "---")?;
 		serde_yaml::to_writer(&mut self.0, &value)?;
+		#[cfg(xt_verif)]
+		crate::verif::emit("doc_end", 4, 0, 0);
 		Ok(())
 	}
 
 	fn flush(&mut self) -> io::Result<()> {
 		self.0.flush()
+	}
+}
+
+/// Thin wrappers for the verification harness (see `crate::verif`).
+#[cfg(xt_verif)]
+pub(crate) mod verif_hooks {
+	use std::io::{self, BufRead, Read};
+
+	use super::chunker::Chunker;
+	use super::encoding::{Encoder, Encoding};
+
+	fn name_of(encoding: &Encoding) -> &'static str {
+		match encoding {
+			Encoding::Utf8 => "utf8",
+			Encoding::Utf16Big => "utf16be",
+			Encoding::Utf32Big => "utf32be",
+			Encoding::Utf16Little => "utf16le",
+			Encoding::Utf32Little => "utf32le",
+		}
+	}
+
+	fn by_name(name: &str) -> Encoding {
+		match name {
+			"utf16be" => Encoding::Utf16Big,
+			"utf32be" => Encoding::Utf32Big,
+			"utf16le" => Encoding::Utf16Little,
+			"utf32le" => Encoding::Utf32Little,
+			_ => Encoding::Utf8,
+		}
+	}
+
+	pub(crate) fn detect_encoding(prefix: &[u8]) -> &'static str {
+		name_of(&Encoding::detect(prefix))
+	}
+
+	pub(crate) fn encoder_new<'r, R: BufRead + 'r>(reader: R, encoding: &str) -> Box<dyn Read + 'r> {
+		Box::new(Encoder::new(reader, by_name(encoding)))
+	}
+
+	pub(crate) fn encoder_from_reader<'r, R: BufRead + 'r>(
+		reader: R,
+	) -> io::Result<Box<dyn Read + 'r>> {
+		Ok(Box::new(Encoder::from_reader(reader)?))
+	}
+
+	pub(crate) fn chunks<'r, R: Read + 'r>(
+		reader: R,
+	) -> Box<dyn Iterator<Item = io::Result<(String, bool)>> + 'r> {
+		Box::new(
+			Chunker::new(reader)
+				.map(|doc| doc.map(|doc| (doc.content().to_owned(), doc.is_collection()))),
+		)
 	}
 }
